@@ -120,14 +120,40 @@ Section Polygon.
       from the outline was never selected), Float::MAX since fix f0d596d.  The pinned value goes with [wrap = true]. *)
   Definition c9e14 : K := nofZ 900000000000000.
   Definition scan_start (wrap : bool) : K := if wrap then c9e14 else nmaxf.
+  (** fix bcb072e: when the polygon has several holes the chosen outline vertex may be visited several times (it already
+      carries bridges): the bridge is attached at the first visit whose interior angle, for the outer normal, contains it.
+      [in_cone n e prev next h]; [find_visit] scans the visits j = 0 .. len-1 in order. *)
+  Definition in_cone (n e prev next h : V) : bool :=
+    let a := vsub next e in let b := vsub prev e in let d := vsub h e in
+    if vdot (vcross a b) n >=? n0 then (vdot (vcross a d) n >? n0) && (vdot (vcross d b) n >? n0)
+    else negb ((vdot (vcross b d) n >=? n0) && (vdot (vcross d a) n >=? n0)).
+  Fixpoint find_visit (n e h : V) (vs : list V) (len j cnt : nat) : option nat :=
+    match cnt with
+    | O => None
+    | S c =>
+      if vcompare (vnth vs j) e && in_cone n e (vnth vs (Nat.modulo (j + len - 1) len)) (vnth vs (Nat.modulo (j + 1) len)) h
+      then Some j else find_visit n e h vs len (S j) c
+    end.
+  (** the attachment position: [Ok j]; [Panic 21] = `ret_loop[min_ext_vertex_id]` out of bounds (empty outline).
+      [wrap = true] (pinned snapshot): always the scan's position. *)
+  Definition attach_index (wrap : bool) (P : Poly) (vs : list V) (me : nat) (hole : Loop K) (iv' : nat) : res nat :=
+    if wrap then Ok me else
+    if Nat.ltb 1 (length (pinner P)) && Nat.ltb iv' (llen hole) then
+      if Nat.leb (length vs) me then Panic 21%N else
+      match find_visit (lnormal (pouter P)) (vnth vs me) (vnth (verts hole) iv') vs (length vs) 0 (length vs) with
+      | Some j => Ok j
+      | None => Ok me
+      end
+    else Ok me.
   Fixpoint merge_holes (wrap : bool) (P : Poly) (count : nat) (ret_loop : Loop K) (processed : list nat) (il iv_id : nat) : res (Loop K) :=
     match count with
     | O => Ok ret_loop
     | S c =>
-      let '(md, me, ml, il', iv') := scan_ext (verts ret_loop) 0 (pinner P) processed (scan_start wrap, O, O, il, iv_id) in
+      let '(md, me0, ml, il', iv') := scan_ext (verts ret_loop) 0 (pinner P) processed (scan_start wrap, O, O, il, iv_id) in
       match nth_error (pinner P) ml with
       | None => Panic 21%N
       | Some hole =>
+        do me <- attach_index wrap P (verts ret_loop) me0 hole iv';
         do aux <- rebuild wrap (lnormal (pouter P)) (verts ret_loop) 0 me hole iv' loop_new;
         merge_holes wrap P c aux (processed ++ [il']) il' iv'
       end
